@@ -1,6 +1,8 @@
 from __future__ import annotations
 from pathlib import Path
 
+from spacepackets.exceptions import BytesTooShortError
+
 
 class CfdpLv:
     def __init__(self, value: bytes):
@@ -43,6 +45,8 @@ class CfdpLv:
 
         :raise ValueError: Invalid length found
         """
+        if len(raw_bytes) < 1:
+            raise BytesTooShortError(1, 0)
         detected_len = raw_bytes[0]
         if 1 + detected_len > len(raw_bytes):
             raise ValueError("Detected length exceeds size of passed bytearray")
